@@ -248,7 +248,10 @@ impl FileSystem for FakeFileSystem {
     }
 
     fn glob(&self, pattern: &str) -> Result<Vec<PathBuf>, LoadError> {
-        let pattern = glob::Pattern::new(pattern)?;
+        // keys are canonical paths, so `.` and `..` in the pattern must be resolved first,
+        // otherwise `include ../foo.ledger` never matches anything.
+        let normalized = self.canonicalize_path(Path::new(pattern));
+        let pattern = glob::Pattern::new(&normalized.to_string_lossy())?;
         let mut paths: Vec<PathBuf> = self
             .0
             .keys()
